@@ -80,6 +80,7 @@ STATEMENT_STATUS: Dict[str, str] = {
     "bfrange_inc_pairs": "proved: a range whose last byte never overflows maps lo+i to dst with the last byte + i",
     "widths2_map_spec": "proved: get_widths2(render W2) = specified dictionary, any interleaving of both syntaxes",
     "widths2_spec": "proved: w1y of a cid = latest W2 entry, else DW2[1], else -1000 (regenerated default)",
+    "disp2_spec": "proved: position vector of a cid = (vx, vy) of the font's own latest W2 entry, else (none, DW2[0] or 880)",
     "trie_build_codes": "proved: a trie built by add_code2cid from a prefix-free table has the table's codes",
     "trie_build_decode": "proved: CMap.decode on the built trie = CIDs of the table's codes",
     "future work": "utf16 round trip utf16Ignore (utf16Encode cps) = cps; theorems over the Lean model of "
@@ -398,6 +399,8 @@ def gen_trie_string(rng, tab: Dict[bytes, int], keys: List[bytes]) -> Tuple[byte
     """Mostly codes* (+ partial code); sometimes with bytes that start no code."""
     k = rng.randint(0, 6)
     parts = [rng.choice(keys) for _ in range(k)]
+    if keys and rng.random() < 0.15:      # boundary codes of the table: smallest / largest code
+        parts.insert(rng.randint(0, len(parts)), rng.choice([min(keys), max(keys)]))
     kind = "codes"
     r = rng.random()
     if r < 0.3:
@@ -431,6 +434,8 @@ def gen_target(rng, wild=False) -> bytes:
 
 def gen_src(rng, width: int, hot: List[int]) -> int:
     top = 256 ** width
+    if rng.random() < 0.1:
+        return rng.choice([0, top - 1, top - 2, 255 % top, 256 % top])
     if hot and rng.random() < 0.3:
         return rng.choice(hot) % top
     if rng.random() < 0.5:
@@ -518,6 +523,19 @@ def gen_wild_tokens(rng) -> List[Any]:
     return toks
 
 
+# boundary values of the CID / code space (first, last, around the one/two-byte border)
+BOUNDARY_CIDS = [0, 1, 255, 256, 65534, 65535]
+
+
+def gen_cid(rng) -> int:
+    r = rng.random()
+    if r < 0.25:
+        return rng.choice(BOUNDARY_CIDS)
+    if r < 0.75:
+        return rng.choice([0, 1, 2, 3, 5, 10, 32, rng.randint(0, 300)])
+    return rng.randint(0, 65535)
+
+
 def gen_num(rng, allow_float=True):
     if allow_float and rng.random() < 0.25:
         return float(F(rng.randint(-2000, 3000), rng.choice([2, 4, 8])))
@@ -527,12 +545,18 @@ def gen_num(rng, allow_float=True):
 def gen_w_entries(rng, n=None):
     ents = []
     for _ in range(n if n is not None else rng.randint(0, 5)):
-        c = rng.choice([0, 1, 2, 3, 5, 10, 32, rng.randint(0, 300), rng.randint(0, 65535)])
+        c = gen_cid(rng)
         if rng.random() < 0.5:
             ents.append(("L", c, [gen_num(rng) for _ in range(rng.randint(0, 4))]))
         else:
             c1 = c if rng.random() > 0.06 else -rng.randint(1, 5)      # below 0 / above 65535: clamped part is void
-            ents.append(("R", c1, c + rng.choice([0, 1, 2, 7, 30, -1]), gen_num(rng)))
+            r = rng.random()
+            if r < 0.12:
+                c2 = rng.choice([65535, 65535, 65534, 65536, 70000])   # ranges reaching the last CID (or beyond)
+                c1 = max(c1, c2 - rng.choice([0, 1, 5, 40, 535])) if rng.random() < 0.9 else 0   # rarely the full range
+            else:
+                c2 = c + rng.choice([0, 1, 2, 7, 30, -1])
+            ents.append(("R", c1, c2, gen_num(rng)))
     return ents
 
 
@@ -549,12 +573,17 @@ def render_w(entries) -> List[Any]:
 def gen_w2_entries(rng, n=None):
     ents = []
     for _ in range(n if n is not None else rng.randint(0, 4)):
-        c = rng.choice([0, 1, 2, 3, 5, 10, rng.randint(0, 300)])
+        c = gen_cid(rng)
         t = lambda: (rng.choice([-1000, -500, -750, -rng.randint(1, 1500), 200]), gen_num(rng), gen_num(rng))  # noqa: E731
         if rng.random() < 0.5:
             ents.append(("L", c, [t() for _ in range(rng.randint(0, 3))]))
         else:
-            ents.append(("R", c, c + rng.choice([0, 1, 2, 7, -1]), t()))
+            c2 = c + rng.choice([0, 1, 2, 7, -1])
+            c1 = c
+            if rng.random() < 0.12:
+                c2 = rng.choice([65535, 65535, 65534, 65536, 70000])
+                c1 = max(0, c2 - rng.choice([0, 1, 5, 40]))
+            ents.append(("R", c1, c2, t()))
     return ents
 
 
@@ -983,6 +1012,76 @@ def run_widths(ctx: C.Ctx) -> None:
     b.flush()
 
 
+# Every composite font built by the fontwidth and doc groups, in order.  A failure of an observable that must depend
+# on the font's own dictionaries only is reported together with the fonts built before it, so that the replay
+# (which starts in a fresh process) rebuilds the same sequence: state leaking from one font / document into the
+# next is reproducible.
+HISTORY: List[Dict[str, Any]] = []
+
+
+def history_covers(h, cid: int) -> bool:
+    """Does an earlier font carry an explicit W / W2 entry for this cid?"""
+    try:
+        if h["kind"] == "fontwidth":
+            ents = [parse_w2ent_word(w) if h["vertical"] else parse_went_word(w) for w in h["entries"]]
+            return cid in (spec_widths2(ents) if h["vertical"] else spec_widths(ents))
+        cfgs = [h["cfg"]] + ([second_cfg(h["cfg"])] if h["cfg"].get("second") else [])
+        return any(cid in spec_widths2([norm_w2ent(x) for x in (c.get("w2") or [])]) or
+                   cid in spec_widths([norm_went(x) for x in (c.get("w") or [])]) for c in cfgs)
+    except Exception:  # noqa: BLE001
+        return False
+
+
+def history_for(cid: Optional[int] = None) -> List[Dict[str, Any]]:
+    """The fonts built before the current one that matter for a replay: the most recent ones and, when the failing
+    cid is known, the latest earlier fonts that carry an entry for it."""
+    recent = HISTORY[-3:]
+    older = HISTORY[:-3]
+    _HIST_CALLS[0] += 1
+    if _HIST_CALLS[0] > 25:          # only the first failures get the (linear) search through the whole history
+        return recent
+    rel = []
+    for h in reversed(older):
+        if cid is not None and history_covers(h, cid):
+            rel.insert(0, h)
+            if len(rel) == 3:
+                break
+    return rel + recent
+
+
+_HIST_CALLS = [0]
+
+
+def history_before(n: int, cid: Optional[int]) -> List[Dict[str, Any]]:
+    saved = HISTORY[n:]
+    del HISTORY[n:]
+    try:
+        return history_for(cid)
+    finally:
+        HISTORY.extend(saved)
+
+
+def replay_history(items) -> None:
+    for h in items or []:
+        if h["kind"] == "fontwidth":
+            call(lambda: build_wfont(h["vertical"], h["entries"], h["dflt"]))
+        else:
+            call(lambda: impl_glyphs(doc_pdf(h["cfg"])))
+
+
+def build_wfont(vertical: bool, entry_words, dflt):
+    from pdfminer.pdffont import PDFCIDFont
+    from pdfminer.psparser import LIT
+    ents = [parse_w2ent_word(w) if vertical else parse_went_word(w) for w in entry_words]
+    spec: Dict[str, Any] = {"Type": LIT("Font"), "Subtype": LIT("CIDFontType2"), "BaseFont": LIT("X"),
+                            "CIDSystemInfo": {"Registry": b"Adobe", "Ordering": b"Identity", "Supplement": 0},
+                            "Encoding": LIT("Identity-V" if vertical else "Identity-H"), "FontDescriptor": {},
+                            ("W2" if vertical else "W"): (render_w2 if vertical else render_w)(ents)}
+    if dflt is not None:
+        spec["DW2" if vertical else "DW"] = dflt
+    return PDFCIDFont(None, spec)
+
+
 def run_fontwidth(ctx: C.Ctx) -> None:
     """PDFCIDFont.char_width / DW / DW2 defaults against the model's glyphWidth / glyphWidthV (tie of the
     regenerated defaults) and against the spec."""
@@ -1009,14 +1108,20 @@ def run_fontwidth(ctx: C.Ctx) -> None:
                 dflt = rng.choice([1000, 0, 250.5, 600])
                 spec["DW"] = dflt
         font, e = call(lambda: PDFCIDFont(None, spec))
+        hist_len = len(HISTORY)
+        HISTORY.append({"kind": "fontwidth", "vertical": vertical, "has_w2": vertical and bool(ents), "dflt": dflt,
+                        "entries": [(w2ent_word if vertical else went_word)(x) for x in ents]})
         if e is not None:
             ctx.fail(C.Failure("PDFCIDFont could not be built from a well-formed W/W2 array",
                                {"group": "fontwidth", "vertical": vertical, "elems": [welem_word(x) for x in elems]},
                                "a font", exc_line(e), {"group": "fontwidth", "exc": type(e).__name__}))
             continue
         sw = spec_widths2(ents) if vertical else spec_widths(ents)
-        cids = [c for c in [en[1] for en in ents] + [en[1] + 1 for en in ents] if c >= 0] + [0, rng.randint(0, 400)]
-        for cid in cids[:6]:
+        cids = [en[1] for en in ents] + [en[1] + 1 for en in ents] + [en[2] for en in ents if en[0] == "R"] + \
+            [en[2] + 1 for en in ents if en[0] == "R"]
+        rng.shuffle(cids)
+        cids = [c for c in cids if 0 <= c <= 65535][:5] + [rng.choice(BOUNDARY_CIDS), 65535, rng.randint(0, 400)]
+        for cid in cids:
             got = font.char_width(cid) * 1000
             if vertical:
                 exp = sw[cid][0] if cid in sw else F(dflt[1] if dflt else -1000)
@@ -1032,11 +1137,31 @@ def run_fontwidth(ctx: C.Ctx) -> None:
                      branch="fontwidth:" + ("v" if vertical else "h") + (":default" if cid not in sw else ":entry")
                      + (":nodw" if dflt is None else ""))
             if not close(exp, got):
-                ctx.fail(C.Failure("CID font: width of a cid differs from W/DW (W2/DW2)", inp, str(exp), got,
-                                   {"group": "fontwidth", "vertical": vertical, "default": cid not in sw}))
+                ctx.fail(C.Failure("CID font: width of a cid differs from W/DW (W2/DW2)", dict(inp, history=history_before(hist_len, cid)),
+                                   str(exp), got, {"group": "fontwidth", "vertical": vertical, "default": cid not in sw}))
+            # position vector (vertical) / 0 (horizontal): the font's OWN W2 entry, else (None, DW2[0] or 880)
+            disp = font.char_disp(cid)
+            if vertical:
+                dexp = (sw[cid][1], sw[cid][2]) if cid in sw else (None, F(dflt[0] if dflt else 880))
+                ok = (isinstance(disp, tuple) and len(disp) == 2 and (disp[0] is None) == (dexp[0] is None)
+                      and (dexp[0] is None or close(dexp[0], disp[0])) and close(dexp[1], disp[1]))
+                dline = "D " + ("None" if not isinstance(disp, tuple) or disp[0] is None else C.frac_str(F(disp[0]))) + \
+                    " " + (C.frac_str(F(disp[1])) if isinstance(disp, tuple) else "?")
+                lines.append(f"gdv {dw} {cid} {elems_words(elems)}")
+                meta.append((dict(inp, what="disp"), dline))
+            else:
+                dexp = 0
+                ok = disp == 0
+            if not ok:
+                ctx.fail(C.Failure("CID font: position vector of a cid differs from the font's own W2/DW2",
+                                   dict(inp, what="disp", history=history_before(hist_len, cid)), str(dexp), repr(disp),
+                                   {"group": "fontwidth", "vertical": vertical, "what": "disp"}))
     if ctx.driver is not None and lines:
         for (inp, got), out in zip(meta, ctx.driver.ask(lines)):
-            if not out.startswith("R ") or not close(F(out[2:]), got):
+            if isinstance(got, str):
+                if out != got:
+                    ctx.disagree("fontdisp.model", inp, got, out)
+            elif not out.startswith("R ") or not close(F(out[2:]), got):
                 ctx.disagree("fontwidth.model", inp, got, out)
 
 
@@ -1556,7 +1681,8 @@ def gen_doc(rng) -> Dict[str, Any]:
     # strings
     hot: List[int] = []
     for e in (cfg["w"] or []) + (cfg["w2"] or []):
-        hot += [e[1], e[1] + 1]
+        hot += [e[1], e[1] + 1] + ([e[2], e[2] + 1, e[2] - 1] if e[0] == "R" else [e[1] + len(e[2]) - 1, e[1] + len(e[2])])
+    hot = [h for h in hot if 0 <= h <= 65535] + BOUNDARY_CIDS
     if cfg["tu"] and "sections" in cfg["tu"] and width:
         m, _ = spec_tounicode([parse_sec_word(w) for w in cfg["tu"]["sections"]])
         hot += list(m)[:20]
@@ -1605,9 +1731,15 @@ def gen_doc(rng) -> Dict[str, Any]:
             cfg["w2"] = [list(e) for e in gen_w2_entries(rng)]
         if not sec["enc"].endswith("V") and cfg.get("w") is None and rng.random() < 0.7:
             cfg["w"] = [list(e) for e in gen_w_entries(rng)]
+        if rng.random() < 0.5:
+            # ... or a second, independent composite font: its own descendant with its own W/DW/W2/DW2
+            sec["own"] = {"w": [list(e) for e in gen_w_entries(rng)] if rng.random() < 0.6 else None,
+                          "dw": rng.choice([1000, 500, 750.5]) if rng.random() < 0.4 else None,
+                          "w2": [list(e) for e in gen_w2_entries(rng)] if rng.random() < 0.5 else None,
+                          "dw2": [rng.choice([880, 800]), rng.choice([-1000, -900])] if rng.random() < 0.4 else None}
         sec["shows"] = [list(items) for items in shows[:2]]       # the same strings, now shown in the second font
         sec["order"] = rng.choice(["after", "before"])
-        if not (sec["enc"] == cfg["enc"] and sec["tu"] == cfg["tu"]):
+        if sec.get("own") or not (sec["enc"] == cfg["enc"] and sec["tu"] == cfg["tu"]):
             cfg["second"] = sec
     return cfg
 
@@ -1615,7 +1747,10 @@ def gen_doc(rng) -> Dict[str, Any]:
 def second_cfg(cfg):
     """The configuration of the second font as a stand-alone document configuration."""
     sec = cfg["second"]
-    return dict(cfg, enc=sec["enc"], enc_kind=sec["enc_kind"], tu=sec["tu"], shows=sec["shows"], second=None)
+    out = dict(cfg, enc=sec["enc"], enc_kind=sec["enc_kind"], tu=sec["tu"], shows=sec["shows"], second=None)
+    if sec.get("own"):
+        out.update(sec["own"])
+    return out
 
 
 def norm_went(e):
@@ -1676,6 +1811,19 @@ def doc_pdf(cfg) -> bytes:
     sec = cfg.get("second")
     if sec:
         t2: Dict[str, Any] = {"Type": "Font", "Subtype": "Type0", "BaseFont": "VerifFont", "DescendantFonts": [Ref(5)]}
+        if sec.get("own"):
+            cid2 = {k: v for k, v in cid.items() if k not in ("W", "DW", "W2", "DW2")}
+            own = sec["own"]
+            if own.get("w") is not None:
+                cid2["W"] = render_w([norm_went(e) for e in own["w"]])
+            if own.get("dw") is not None:
+                cid2["DW"] = own["dw"]
+            if own.get("w2") is not None:
+                cid2["W2"] = render_w2([norm_w2ent(e) for e in own["w2"]])
+            if own.get("dw2") is not None:
+                cid2["DW2"] = own["dw2"]
+            extra[15] = cid2
+            t2["DescendantFonts"] = [Ref(15)]
         t2["Encoding"] = sec["enc"]
         if sec.get("tu"):
             if "name" in sec["tu"]:
@@ -1706,7 +1854,7 @@ def impl_glyphs(pdf: bytes):
         it.process_page(page)
         for o in dev.get_result():
             if isinstance(o, LTChar):
-                out.append((o.get_text(), o.adv, tuple(o.matrix)))
+                out.append((o.get_text(), o.adv, tuple(o.matrix), tuple(o.bbox)))
     return out
 
 
@@ -1759,6 +1907,7 @@ def doc_expect_one(cfg):
     if vertical:
         w2 = spec_widths2([norm_w2ent(x) for x in cfg["w2"]]) if cfg.get("w2") is not None else {}
         dflt = F(cfg["dw2"][1]) if cfg.get("dw2") is not None else F(-1000)
+        dvy = F(cfg["dw2"][0]) if cfg.get("dw2") is not None else F(880)
         width = lambda cid: w2[cid][0] if cid in w2 else dflt  # noqa: E731
     else:
         w = spec_widths([norm_went(x) for x in cfg["w"]]) if cfg.get("w") is not None else {}
@@ -1803,7 +1952,20 @@ def doc_expect_one(cfg):
                             texts = {um.cid2unichr[cid]}
                     except Exception:  # noqa: BLE001
                         pass
-                out.append([texts, width(cid) * fs / 1000, x * a + y * c + e, x * b_ + y * d + f, cid])
+                adv_ = width(cid) * fs / 1000
+                ge, gf = x * a + y * c + e, x * b_ + y * d + f
+                # glyph box in glyph-origin coordinates (pdfminer's convention: em-wide box; vertical glyphs are placed
+                # by the position vector (vx, vy) of the font's own W2, default (w0/2 with w0 = 1000, DW2[0]))
+                if vertical:
+                    vx, vy = (w2[cid][1], w2[cid][2]) if cid in w2 else (None, dvy)
+                    bx = fs / 2 if vx is None else vx * fs / 1000
+                    by = (1000 - vy) * fs / 1000
+                    rect = (-bx, by + adv_, -bx + fs, by)
+                else:
+                    rect = (F(0), F(-200) * fs / 1000, adv_, F(-200) * fs / 1000 + fs)
+                pts = [(px * a + py * c + ge, px * b_ + py * d + gf) for px in (rect[0], rect[2]) for py in (rect[1], rect[3])]
+                box = (min(p[0] for p in pts), min(p[1] for p in pts), max(p[0] for p in pts), max(p[1] for p in pts))
+                out.append([texts, adv_, ge, gf, cid, box])
                 if vertical:
                     y += width(cid) * fs / 1000
                 else:
@@ -1843,7 +2005,7 @@ def doc_compare(cfg):
     if len(got) != len(exp):
         return ("composite font: number of glyphs differs from the number of codes in the strings",
                 len(exp), len(got), dict(tags, what="count"))
-    for k, ((texts, adv, ee, ff, cid), (gt, gadv, gm)) in enumerate(zip(exp, got)):
+    for k, ((texts, adv, ee, ff, cid, box), (gt, gadv, gm, gbox)) in enumerate(zip(exp, got)):
         if texts is not None and gt not in texts:
             return ("composite font: Unicode text of a code differs from ToUnicode / collection / TrueType cmap",
                     sorted(texts), gt, dict(tags, what="text", index=k))
@@ -1852,6 +2014,10 @@ def doc_compare(cfg):
         if not (close(ee, gm[4]) and close(ff, gm[5])):
             return ("composite font: glyph origin differs from the pen position implied by the advances",
                     [str(ee), str(ff)], list(gm[4:6]), dict(tags, what="matrix", index=k))
+        if not all(close(p, q) for p, q in zip(box, gbox)):
+            return ("composite font: glyph box differs from the placement the font's metrics define "
+                    "(vertical: position vector of its own W2/DW2)",
+                    [str(v) for v in box], list(gbox), dict(tags, what="bbox", index=k))
     return None
 
 
@@ -1875,8 +2041,12 @@ def shrink_doc(cfg):
     return cur if fails(cur) else cfg
 
 
-def check_doc(ctx: C.Ctx, b: Batch, cfg, do_shrink=True) -> None:
+def check_doc(ctx: C.Ctx, b: Batch, cfg, do_shrink=True, record=True) -> None:
+    hist_len = len(HISTORY)
     r = doc_compare(cfg)
+    if record:
+        HISTORY.append({"kind": "doc", "vertical": cfg["enc"].endswith("V") or bool(cfg.get("second") and cfg["second"]["enc"].endswith("V")),
+                        "has_w2": bool(cfg.get("w2")), "cfg": cfg})
     vertical = cfg["enc"].endswith("V")
     kind = "ident2" if cfg["enc"] in IDENT2 else "ident1" if cfg["enc"] in IDENT1 else "cjk"
     tu = "tu-stream" if cfg.get("tu") and "sections" in cfg["tu"] else "tu-name" if cfg.get("tu") else \
@@ -1892,7 +2062,13 @@ def check_doc(ctx: C.Ctx, b: Batch, cfg, do_shrink=True) -> None:
     if r2 is None or r2 == "outside":
         small, r2 = cfg, r
     what, exp, got, tags = r2
-    ctx.fail(C.Failure(what, {"group": "doc", "cfg": small}, exp, got, tags))
+    cid = None
+    if tags.get("what") in ("bbox", "adv") and isinstance(tags.get("index"), int):
+        e2 = doc_expect(small)
+        if e2 and tags["index"] < len(e2):
+            cid = e2[tags["index"]][4]
+    ctx.fail(C.Failure(what, {"group": "doc", "cfg": small, "history": history_before(hist_len, cid) if record else []},
+                       exp, got, tags))
 
 
 def run_doc(ctx: C.Ctx) -> None:
@@ -1941,7 +2117,8 @@ def replay(ctx: C.Ctx, doc, from_corpus: bool = False) -> None:
     elif g == "tounicode":
         check_tounicode(ctx, b, [parse_sec_word(w) for w in inp["sections"]], "replay")
     elif g == "doc":
-        check_doc(ctx, b, inp["cfg"], do_shrink=False)
+        replay_history(inp.get("history"))          # the documents / fonts processed before this one
+        check_doc(ctx, b, inp["cfg"], do_shrink=False, record=from_corpus)
     elif g == "ttf":
         check_ttf(ctx, inp["ttf"])
     elif g == "codec":
@@ -1962,28 +2139,35 @@ def replay(ctx: C.Ctx, doc, from_corpus: bool = False) -> None:
             ctx.fail(C.Failure("CID font does not use the character collection's Unicode table of its CMap's "
                                "writing mode", inp, want, out, {"group": "umapsel", "vertical": inp["enc"].endswith("V")}))
     elif g == "fontwidth":
-        from pdfminer.pdffont import PDFCIDFont
-        from pdfminer.psparser import LIT
         vertical = inp["vertical"]
         ents = [parse_w2ent_word(w) if vertical else parse_went_word(w) for w in inp["entries"]]
-        spec = {"Type": LIT("Font"), "Subtype": LIT("CIDFontType2"), "BaseFont": LIT("X"),
-                "CIDSystemInfo": {"Registry": b"Adobe", "Ordering": b"Identity", "Supplement": 0},
-                "Encoding": LIT("Identity-V" if vertical else "Identity-H"), "FontDescriptor": {},
-                ("W2" if vertical else "W"): (render_w2 if vertical else render_w)(ents)}
         dflt = inp.get("dflt")
-        if dflt is not None:
-            spec["DW2" if vertical else "DW"] = dflt
         sw = spec_widths2(ents) if vertical else spec_widths(ents)
         cid = inp["cid"]
-        if vertical:
-            exp = sw[cid][0] if cid in sw else F(dflt[1] if dflt else -1000)
-        else:
-            exp = sw.get(cid, F(dflt if dflt is not None else 1000))
-        got, e = call(lambda: PDFCIDFont(None, spec).char_width(cid) * 1000)
+        replay_history(inp.get("history"))          # the fonts built before this one, in the same order
+        font, e = call(lambda: build_wfont(vertical, inp["entries"], dflt))
         ctx.case(("fw", json.dumps(inp, sort_keys=True)), True)
-        if e is not None or not close(exp, got):
-            ctx.fail(C.Failure("CID font: width of a cid differs from W/DW (W2/DW2)", inp, str(exp),
-                               got if e is None else exc_line(e), {"group": "fontwidth", "vertical": vertical}))
+        if e is not None:
+            ctx.fail(C.Failure("PDFCIDFont could not be built from a well-formed W/W2 array", inp, "a font", exc_line(e),
+                               {"group": "fontwidth", "exc": type(e).__name__}))
+        elif inp.get("what") == "disp":
+            disp = font.char_disp(cid)
+            dexp = ((sw[cid][1], sw[cid][2]) if cid in sw else (None, F(dflt[0] if dflt else 880))) if vertical else 0
+            ok = disp == 0 if not vertical else (
+                isinstance(disp, tuple) and (disp[0] is None) == (dexp[0] is None)
+                and (dexp[0] is None or close(dexp[0], disp[0])) and close(dexp[1], disp[1]))
+            if not ok:
+                ctx.fail(C.Failure("CID font: position vector of a cid differs from the font's own W2/DW2", inp,
+                                   str(dexp), repr(disp), {"group": "fontwidth", "vertical": vertical, "what": "disp"}))
+        else:
+            if vertical:
+                exp = sw[cid][0] if cid in sw else F(dflt[1] if dflt else -1000)
+            else:
+                exp = sw.get(cid, F(dflt if dflt is not None else 1000))
+            got = font.char_width(cid) * 1000
+            if not close(exp, got):
+                ctx.fail(C.Failure("CID font: width of a cid differs from W/DW (W2/DW2)", inp, str(exp), got,
+                                   {"group": "fontwidth", "vertical": vertical}))
     elif g == "widths":
         from pdfminer import pdffont
         vertical = inp["vertical"]
